@@ -1658,6 +1658,53 @@ fn ctl_obs<F: VF>(ctx: &mut Ctx) {
             );
         });
 
+        // degree: every constraint the evaluator emits must have total degree <= the declared
+        // constraint degree in the trace / auxiliary openings, the Lagrange selectors counting as
+        // degree 1 (quotient_degree_factor = constraint_degree - 1)
+        for d in [2usize, 3] {
+            // what cross_table_lookup_data / CtlCheckVars::from_proof produce at this degree: a table
+            // occurring once has no helper column; k > 1 occurrences have ceil(k / (d - 1)) helpers
+            let nh = if nsets < 2 { 0 } else { (nsets + d - 2) / (d - 1) };
+            if nh != nhelp {
+                continue;
+            }
+            let idp = format!("C10.S.stark.ctl.{v:?}.degree{d}");
+            ctx.guarded(&idp.clone(), F_CTL, |ctx| {
+                if F::SYMBOLIC {
+                    crate::reset();
+                }
+                let (beta, gamma) = (F::var("beta"), F::var("gamma"));
+                let al = [F::ext("alpha0")];
+                // z_last = x - g^(n-1) has degree 1 in x (not n - 1 like an opening): a constant here
+                let zl = F::ext("zlast");
+                let nin = 2 * (3 + 3 + nhelp + 2 + 2);
+                let got = crate::ctx::degree_of::<F>("t", nin, 5, |x: &[F]| {
+                    let e: Vec<Ext<F>> = x.chunks(2).map(|c| ext_of::<F>(c[0], c[1])).collect();
+                    let (lv, nv, h) = (&e[0..3], &e[3..6], e[6..6 + nhelp].to_vec());
+                    let o = 6 + nhelp;
+                    let (z, zn, lf, ll) = (e[o], e[o + 1], e[o + 2], e[o + 3]);
+                    let mut columns: Vec<&[Column<F>]> = vec![&ca[..]];
+                    let mut filters = vec![fa.clone()];
+                    if nsets == 2 {
+                        columns.push(&cb[..]);
+                        filters.push(fb.clone());
+                    }
+                    let cv = hk::ctl_check_vars::<F, Ext<F>, Ext<F>, 2>(h, z, zn, GrandProductChallenge { beta, gamma }, columns, filters);
+                    let vars = <CtlS<F, 2> as Stark<F, 2>>::EvaluationFrame::<Ext<F>, Ext<F>, 2>::from_values(lv, nv, &[]);
+                    let mut cons = ConstraintConsumer::<Ext<F>>::new(al.to_vec(), zl, lf, ll);
+                    hk::eval_cross_table_lookup_checks::<F, Ext<F>, Ext<F>, CtlS<F, 2>, 2, 2>(&vars, &[cv], &mut cons, d);
+                    let acc = cons.accumulators();
+                    acc.iter().flat_map(|a| { let b: [F; 2] = a.to_basefield_array(); b.to_vec() }).collect()
+                });
+                ctx.add(
+                    Ob::new(idp.clone(), F_CTL, format!("CTL variant {v:?} ({nsets} column set(s) of one table, {nhelp} helper column(s)) as the prover lays it out at constraint degree {d}; set B's filter f*f has degree 2; openings, selectors: symbols; challenges: constants"))
+                        .sample(format!("total degree of the alpha-combined constraints of eval_cross_table_lookup_checks in (local, next, helper, Z, Z' openings, L_first, L_last) <= {d}: otherwise the quotient does not fit quotient_degree_factor = {} and honest proofs are rejected; observed degree {got}", d - 1))
+                        .goal(A::Bool(got <= d))
+                        .key(format!("ctl:constraint-degree-exceeded:{v:?}:declared{d}:actual{got}")),
+                );
+            });
+        }
+
         let idp = format!("C11.S.stark.ctl.{v:?}.circuit");
         ctx.guarded(&idp.clone(), F_CTL_C, |ctx| {
             if F::SYMBOLIC {
